@@ -121,31 +121,43 @@ type Report struct {
 	Wall          time.Duration
 	GenFailEx     []string
 	ModelSelfFail int
+	// ByStratum counts deciding observations of the hand-built strata (case signatures of the form "name/...")
+	ByStratum map[string]int
 }
 
 var reJSONTag = regexp.MustCompile(`json:"([^"]*)"`)
 
+var reStratum = regexp.MustCompile(`^[a-z][a-z0-9-]*/`)
+
 // VerdictDefects maps a finding signature to its defect model.
 var VerdictDefects = map[string]func(*model.Defects){
-	"len-bytes":             func(d *model.Defects) { d.LenBytes = true },
-	"outer-array-limits":    func(d *model.Defects) { d.OuterArrayLimits = true },
-	"inline-item-rules":     func(d *model.Defects) { d.InlineItemNoRule = true },
-	"int-bound-trunc":       func(d *model.Defects) { d.IntBoundTrunc = true },
-	"addprop-lax":           func(d *model.Defects) { d.AddPropLax = true },
-	"anyof-merged":          func(d *model.Defects) { d.AnyOfMerged = true },
-	"null-object-zero":      func(d *model.Defects) { d.NullObjZero = true },
-	"addprop-container-lax": func(d *model.Defects) { d.AddPropObjLax = true },
-	"named-format-type":     func(d *model.Defects) { d.NamedFormat = true },
-	"named-array-no-rules":  func(d *model.Defects) { d.NamedArrayNoLim = true },
-	"null-enum-default":     func(d *model.Defects) { d.EnumNullZero = true },
-	"map-value-anon-struct": func(d *model.Defects) { d.MapValueAnon = true },
-	"null-items-no-limits":  func(d *model.Defects) { d.NullItemsNoLim = true },
+	"len-bytes":                     func(d *model.Defects) { d.LenBytes = true },
+	"outer-array-limits":            func(d *model.Defects) { d.OuterArrayLimits = true },
+	"inline-item-rules":             func(d *model.Defects) { d.InlineItemNoRule = true },
+	"int-bound-trunc":               func(d *model.Defects) { d.IntBoundTrunc = true },
+	"addprop-lax":                   func(d *model.Defects) { d.AddPropLax = true },
+	"anyof-merged":                  func(d *model.Defects) { d.AnyOfMerged = true },
+	"null-object-zero":              func(d *model.Defects) { d.NullObjZero = true },
+	"addprop-container-lax":         func(d *model.Defects) { d.AddPropObjLax = true },
+	"minsized-uint8-array-is-bytes": func(d *model.Defects) { d.Uint8ArrayBase64 = true },
+	"named-format-type":             func(d *model.Defects) { d.NamedFormat = true },
+	"named-array-no-rules":          func(d *model.Defects) { d.NamedArrayNoLim = true },
+	"null-enum-default":             func(d *model.Defects) { d.EnumNullZero = true },
+	"map-value-anon-struct":         func(d *model.Defects) { d.MapValueAnon = true },
+	"null-items-no-limits":          func(d *model.Defects) { d.NullItemsNoLim = true },
 }
 
 // Explain returns the known finding whose defect model reproduces the tool's verdict, or "".
-func Explain(ks *known.Set, root *sg.Schema, doc any, toolAccept bool) string {
+func Explain(ks *known.Set, root *sg.Schema, doc any, toolAccept bool, args ...string) string {
+	minSized := false
+	for _, a := range args {
+		minSized = minSized || a == "--min-sized-ints"
+	}
 	var listed []string
 	for sig := range VerdictDefects {
+		if strings.HasPrefix(sig, "minsized-") && !minSized {
+			continue // findings that only exist with --min-sized-ints explain nothing without the flag
+		}
 		if ks.Has(sig) {
 			listed = append(listed, sig)
 		}
@@ -186,7 +198,7 @@ type pending struct {
 // Run executes the configured workload.
 func Run(cfg *Config) (*Report, error) {
 	t0 := time.Now()
-	rep := &Report{GenFail: map[string]int{}, CompileFail: map[string]int{}, ByClass: map[string]int{}, DontCare: map[string]int{},
+	rep := &Report{ByStratum: map[string]int{}, GenFail: map[string]int{}, CompileFail: map[string]int{}, ByClass: map[string]int{}, DontCare: map[string]int{},
 		Sigs: map[string]bool{}, Known: map[string]int{}, KnownExamples: map[string]string{}}
 	env := cfg.Env
 	ks := known.Load()
@@ -557,6 +569,9 @@ func decide(cfg *Config, rep *Report, ks *known.Set, p pending, res *batch.Res) 
 		return
 	}
 	rep.Decided++
+	if m := reStratum.FindString(p.c.Sig); m != "" {
+		rep.ByStratum[strings.TrimSuffix(m, "/")]++
+	}
 	rep.ByClass[p.doc.Class]++
 	rep.Sigs[p.c.Sig+"|"+p.doc.Class] = true
 	if p.mr.V == model.Accept {
@@ -592,7 +607,7 @@ func decide(cfg *Config, rep *Report, ks *known.Set, p pending, res *batch.Res) 
 			rep.Known[p.c.Witness]++
 			return
 		}
-		if sig := Explain(ks, p.root, p.doc.V, toolAccept); sig != "" {
+		if sig := Explain(ks, p.root, p.doc.V, toolAccept, p.prog.Args...); sig != "" {
 			rep.Known[sig]++
 			if _, ok := rep.KnownExamples[sig]; !ok {
 				rep.KnownExamples[sig] = string(jsonx.Marshal(p.c.Root.ToJSON())) + " doc=" + string(p.raw)
@@ -768,7 +783,7 @@ func parity(cfg *Config, rep *Report, ks *known.Set, p pending, j, y *batch.Res)
 	if j.V == "ok" || j.V == "err" {
 		jAcc := j.V == "ok"
 		if jAcc != (p.mr.V == model.Accept) {
-			if sig := Explain(ks, p.c.Root, p.doc.V, jAcc); sig != "" {
+			if sig := Explain(ks, p.c.Root, p.doc.V, jAcc, p.prog.Args...); sig != "" {
 				rep.Known[sig]++
 				return
 			}
